@@ -2789,6 +2789,15 @@ func (te *TemplateEngine) createImageParagraph(imageData *TemplateImageData, doc
 			Position:  ImagePositionInline,
 			Alignment: AlignCenter,
 		}
+	} else {
+		// 使用调用方配置的副本：渲染结果会保存并修改该配置（替代文字、标题、尺寸），
+		// 不能写回调用方的模板数据
+		configCopy := *config
+		if config.Size != nil {
+			sizeCopy := *config.Size
+			configCopy.Size = &sizeCopy
+		}
+		config = &configCopy
 	}
 
 	// 添加图片到文档
